@@ -14,6 +14,8 @@ inductive PVal
   | str (s : Str)
   | list (l : List PVal)
   | words (ws : List Word)
+  | record (fields : List (Str × PVal))                 -- scope_extract: attribute name → value, insertion order
+  | multi (optional : AttrVal) (l : List PVal)       -- scope_extract_list of a `.multiple` object
   deriving Repr, Inhabited
 
 /-- what `int(s)` / `eval(s, math.__dict__, {})` gives for a value string -/
